@@ -222,8 +222,9 @@ class SymOb:
     def fail(self, name, why=""):
         self._add(name, z3.BoolVal(False), "fail", why)
 
-    def eq(self, name, a, b, tol=None):
-        """a == b (exact in real arithmetic; `tol` gives |a-b| <= tol*(1+|b|))"""
+    def eq(self, name, a, b, tol=None, atol=None):
+        """a == b (exact in real arithmetic; `tol` gives |a-b| <= tol*(1+|b|); `atol` gives -atol <= a-b <= atol,
+        which needs no absolute-value terms and is much cheaper for the solver)"""
         a = np.asarray(a, dtype=object) if not isinstance(a, np.ndarray) else a
         b = np.asarray(b, dtype=object) if not isinstance(b, np.ndarray) else b
         if a.shape != b.shape:
@@ -242,7 +243,9 @@ class SymOb:
                 if isinstance(x, (bool, np.bool_)) and isinstance(y, (bool, np.bool_)):
                     self._add(nm, z3.BoolVal(bool(x) == bool(y)))
                     continue
-                if tol is None:
+                if atol is not None:
+                    ok = abs(float(x) - float(y)) <= atol
+                elif tol is None:
                     ok = _close(x, y, 1e-9)
                 else:
                     ok = _close(x, y, tol)
@@ -251,7 +254,11 @@ class SymOb:
             d = Sym.of(x) - y
             if not isinstance(d, Sym):
                 d = Sym.of(d)
-            if tol is None:
+            if atol is not None:
+                up = Sym.of(d - atol)
+                dn = Sym.of(d + atol)
+                self._add(nm, z3.And(up.sign_term("le"), dn.sign_term("ge")), "eqtol", d)
+            elif tol is None:
                 self._add(nm, d.sign_term("eq"), "eq", d)
             else:
                 bound = Sym.of(abs(Sym.of(y)) + 1) * tol
@@ -316,7 +323,7 @@ class ConcOb:
     def fail(self, name, why=""):
         self.items.append((name, False, why))
 
-    def eq(self, name, a, b, tol=None):
+    def eq(self, name, a, b, tol=None, atol=None):
         a = np.asarray(a)
         b = np.asarray(b)
         if a.shape != b.shape:
@@ -325,7 +332,7 @@ class ConcOb:
             except ValueError:
                 self.items.append((name + ".shape", False, "shape %s vs %s" % (a.shape, b.shape)))
                 return
-        t = max(self.TOL, 10 * tol if tol else 0)
+        t = max(self.TOL, 10 * tol if tol else 0, 10 * atol if atol else 0)
         for idx in np.ndindex(*a.shape):
             x, y = a[idx], b[idx]
             nm = name if a.shape == () else "%s%s" % (name, list(idx))
